@@ -123,8 +123,20 @@ var ruleModeGuard = &Rule{
 		e := p.errors()
 		var srcs []*ErrSrc
 		for _, s := range e.srcs {
-			if s.Class == "Verbose" && s.Fn != nil && scope[s.Fn] {
+			if s.Class == "Verbose" && s.Fn != nil && scope[s.Fn] && !p.isErrCtor(s.Fn) {
 				srcs = append(srcs, s)
+			}
+		}
+		// an error built by a constructor helper is raised where the helper is called
+		for fn := range scope {
+			for _, c := range p.allCalls(fn) {
+				if sc := c.Call.StaticCallee(); sc != nil && p.isErrCtor(sc) {
+					for s := range e.classify(c, nil, map[ssa.Value]bool{}) {
+						if s.Class == "Verbose" {
+							srcs = append(srcs, &ErrSrc{Class: "Verbose", Text: s.Text, Instr: c, Fn: fn})
+						}
+					}
+				}
 			}
 		}
 		// uses of initialised sentinel variables of class Verbose count as raise sites too
@@ -205,11 +217,11 @@ func init() {
 	register(ruleModeGuard)
 	addProp(&PropSpec{
 		ID:          "C06",
-		Rules:       []string{"R-ENTRY", "R-PAIR-P", "R-PAIR-C"},
+		Rules:       []string{"R-ENTRY", "R-PAIR-P", "R-PAIR-C", "R-EARLYEXIT"},
 		Explanation: "Agreement of the entry points as sibling agreement: Query, First and Match provably obtain their list from the same internal call and differ only in a post-processing table that is matched case by case; Exists runs the same core with a nil collector, which is only legal where strict mode re-collects; an error can never be turned into 'not found' on the way up (pair coherence and propagation).",
 		Decided: []string{"R-ENTRY: shared adapter/core and argument identity; post-processing tables of Query/First/Exists/Match; ExistsOrMatch dispatch; nil collectors only where strict re-collects or strictness is refuted; decision table of the evaluation core (strict re-collection answers from the emptiness of the complete list, failures propagate); no entry point writes Executor state its siblings do not",
 			"R-PAIR-P / R-PAIR-C: error ⇒ failed at every return; no error lost at a call site"},
-		NotDecided:  []string{"that each early exit 'next == nil && found == nil' fires only where the collecting path would append (D9 is such a site and is invisible to these rules)", "value equality of First and Query[0]"},
+		NotDecided:  []string{"D9 (lax `-\"a\"`: the unary operator accepts a non-numeric operand when nobody collects; not a shortcut site, invisible to these rules)", "value equality of First and Query[0]"},
 		Assumptions: []string{},
 	})
 	addProp(&PropSpec{
